@@ -1263,7 +1263,7 @@ PassMessageCallbackAux(DataNode & node, const MessageRef & msgRef, bool includeS
 
    StorageReflectSession * next = dynamic_cast<StorageReflectSession *>(GetSession(node.GetAncestorNode(NODE_DEPTH_SESSIONNAME, &node)->GetNodeName())());
    if ((next)&&((next != this)||(includeSelfOkay))) next->MessageReceivedFromSession(*this, msgRef, &node);
-   return NODE_DEPTH_SESSIONNAME; // This causes the traversal to immediately skip to the next session
+   return NODE_DEPTH_HOSTNAME; // This causes the traversal to immediately skip to the next session (ie to continue with the next child of our hostname-node)
 }
 
 int
@@ -1280,7 +1280,7 @@ FindSessionsCallback(DataNode & node, void * userData)
    {
       return -1;  // abort now
    }
-   else return (data->_results.GetNumItems() == data->_maxResults) ? -1 : NODE_DEPTH_SESSIONNAME; // This causes the traversal to immediately skip to the next session
+   else return (data->_results.GetNumItems() == data->_maxResults) ? -1 : NODE_DEPTH_HOSTNAME; // This causes the traversal to immediately skip to the next session (ie to continue with the next child of our hostname-node)
 }
 
 int
@@ -1296,7 +1296,7 @@ KickClientCallback(DataNode & node, void * /*userData*/)
       LogTime(MUSCLE_LOG_DEBUG, "Session [%s/%s] is kicking session [%s/%s] off the server.\n", GetHostName()(), GetSessionIDString()(), next->GetHostName()(), next->GetSessionIDString()());
       next->EndSession();  // die!!
    }
-   return NODE_DEPTH_SESSIONNAME; // This causes the traversal to immediately skip to the next session
+   return NODE_DEPTH_HOSTNAME; // This causes the traversal to immediately skip to the next session (ie to continue with the next child of our hostname-node)
 }
 
 int
